@@ -2,7 +2,11 @@
 
 package lungo
 
-import "github.com/256dpi/lungo/bsonkit"
+import (
+	"context"
+
+	"github.com/256dpi/lungo/bsonkit"
+)
 
 // VerifHook, when set, is called at the linearization points of the engine
 // protocol (see the vhook calls in engine.go and session.go). Points whose name
@@ -37,4 +41,10 @@ func (e *Engine) VerifState() (catalog *Catalog, txn *Transaction, alive bool, t
 // from a stream hook (which runs with the stream in a consistent state).
 func (s *Stream) VerifLast() bsonkit.Doc {
 	return s.last
+}
+
+// VerifSessionContext returns a context that carries the session, like the
+// session contexts handed to UseSession and WithTransaction callbacks.
+func VerifSessionContext(ctx context.Context, s ISession) context.Context {
+	return context.WithValue(ctx, sessionKey{}, s.(*Session))
 }
